@@ -130,14 +130,17 @@ def build_simple_pt(case):
         if case["transforms"] != "in_only":
             kw["transform_out"] = u.conj().T
     if case.get("named"):
-        style = case["tseed"] % 5
+        style = case["tseed"] % 6
         kw["name"] = ["pt-%d" % (case["tseed"] % 1000),
                       "\u03c0-tensor \u00e9\u00e8 #%d" % (case["tseed"] % 7),
-                      "", "x" * 300, "  padded name \t"][style]
+                      "", "x" * 300, "  padded name \t",
+                      "long/" * 200][style]
         kw["description"] = ["hand built, chi=%d" % chi,
                              "line one\nline two\ttab", "",
                              "\u2202\u03c1/\u2202t",
-                             "\n  a block of text\n  in two lines\n"][style]
+                             "\n  a block of text\n  in two lines\n",
+                             "a parameter dump, 5000 characters: "
+                             + "0123456789" * 500][style]
     pt = oqupy.process_tensor.SimpleProcessTensor(
         hilbert_space_dimension=d, dt=case["dt"], **kw)
     for k in range(n):
